@@ -543,6 +543,21 @@ pub fn generate(s: &mut Session, thorough: bool) -> bool {
             add(s, "requested-vs-data", &b);
         }
     }
+    // (v-b) lengths that equal a valid length modulo 2^8 / 2^16: bytes appended behind the end marker
+    // and inserted in front of it
+    for base in bases.iter().take(2).chain(std::iter::once(&doc_packet)) {
+        for extra in [256usize, 65536, 2 * 65536] {
+            for fill in [0u8, 0xCC] {
+                let mut b = base.clone();
+                b.resize(base.len() + extra, fill);
+                add(s, "length-wrap", &b);
+                let mut c = base[..base.len() - 4].to_vec();
+                c.extend(std::iter::repeat(fill).take(extra));
+                c.extend(&base[base.len() - 4..]);
+                add(s, "length-wrap", &c);
+            }
+        }
+    }
     // (vi) every length 0..=len+8 of small packets (truncation / zero and CC extension)
     for base in bases.iter().take(2 * scale).chain(std::iter::once(&doc_packet)) {
         for len in 0..=base.len() + 8 {
